@@ -348,6 +348,28 @@ func init() {
 		"math/bits.Len": func(in *Interp, fn *ssa.Function, args []Value) Value {
 			return in.tt.Len64(args[0].(*Term))
 		},
+		"math/bits.Len32": func(in *Interp, fn *ssa.Function, args []Value) Value {
+			return in.tt.Len64(in.tt.Zext(args[0].(*Term), 64))
+		},
+		"math/bits.Len16": func(in *Interp, fn *ssa.Function, args []Value) Value {
+			return in.tt.Len64(in.tt.Zext(args[0].(*Term), 64))
+		},
+		"math/bits.Len8": func(in *Interp, fn *ssa.Function, args []Value) Value {
+			return in.tt.Len64(in.tt.Zext(args[0].(*Term), 64))
+		},
+		"math/bits.LeadingZeros64": func(in *Interp, fn *ssa.Function, args []Value) Value {
+			return in.tt.Sub(in.tt.BV(64, 64), in.tt.Len64(args[0].(*Term)))
+		},
+		"math/bits.TrailingZeros64": func(in *Interp, fn *ssa.Function, args []Value) Value {
+			x := args[0].(*Term)
+			// x & -x isolates the lowest set bit; its Len64 - 1 is the count (64 for x == 0)
+			low := in.tt.BAnd(x, in.tt.Neg(x))
+			r := in.tt.Sub(in.tt.Len64(low), in.tt.BV(64, 1))
+			return in.tt.Ite(in.tt.Eq(x, in.tt.BV(64, 0)), in.tt.BV(64, 64), r)
+		},
+		"math/bits.OnesCount": func(in *Interp, fn *ssa.Function, args []Value) Value {
+			return in.tt.OnesCount64(args[0].(*Term))
+		},
 		"math/bits.OnesCount64": func(in *Interp, fn *ssa.Function, args []Value) Value {
 			return in.tt.OnesCount64(args[0].(*Term))
 		},
